@@ -1388,6 +1388,17 @@ pub fn selftests() -> Vec<(&'static str, bool, String)> {
         2000,
         None,
     );
+    case(
+        "named let, hash table, string port: evaluated; record built in a string port and written under the lock is never torn",
+        &w3,
+        wrap_program(
+            "(p (current-output-port)) (m (make-mutex)) (seen (make-hash-table)) (pr (lambda (l) (let ((text (call-with-output-string (lambda (sp) (let loop ((i 0)) (if (< i 2) (begin (display l sp) (display #\\: sp) (loop (+ i 1))))))))) (with-mutex m (hash-set! seen l #t) (display text p) (display #\\x0a p)))))",
+            "(call-with-relative-path pr)",
+        ),
+        None,
+        2000,
+        None,
+    );
     // block-buffered ports (Guile on pipes and files): display and force-output are
     // unsynchronised read-modify-write operations on the port's buffer
     let mut buffered: Vec<(&'static str, bool, String)> = vec![];
